@@ -24,6 +24,8 @@ use termcolor::{ColorChoice, StandardStream};
 
 // ---------------------------------------------------------------- helpers
 
+const WATCHDOG_S: u32 = 15;
+
 fn hex(b: &[u8]) -> String {
     const T: &[u8; 16] = b"0123456789abcdef";
     let mut s = String::with_capacity(b.len() * 2);
@@ -973,6 +975,14 @@ fn main() {
         }
         let l = line.trim_end_matches('\n');
         let f: Vec<&str> = l.split('\t').collect();
+        // watchdog for the modes that run the code under test inside this process: a request that does
+        // not come back within the limit kills the shim (the client then pins down the request)
+        let in_process = matches!(f[0], "parse" | "parsebulk" | "num");
+        if in_process {
+            unsafe {
+                libc::alarm(WATCHDOG_S);
+            }
+        }
         match f[0] {
             "ping" => {
                 writeln!(wr, "pong").unwrap();
@@ -1085,6 +1095,11 @@ fn main() {
             }
             _ => {
                 writeln!(wr, "ERR unknown mode").unwrap();
+            }
+        }
+        if in_process {
+            unsafe {
+                libc::alarm(0);
             }
         }
         // answer as soon as no further request is already buffered
